@@ -1,9 +1,12 @@
 SPECIFICATION FSpec
 CONSTANTS MaxN = 6 Bound = 3 MaxStep = 3
   CapNames = {"len", "index", "neg", "slice", "seq", "rev"}
+  HintNames = {"exact", "small", "large", "zero", "notimpl", "typeerr"}
+  MaxGrowAt = 3 MaxGrowBy = 2 UseHint = FALSE
 INVARIANT FlowIndependent
 INVARIANT PrefixOfSlice
 INVARIANT OneCursor
 INVARIANT HeldBound
+INVARIANT GrowthSeen
 INVARIANT FEmitted
 CHECK_DEADLOCK FALSE
